@@ -22,7 +22,8 @@ FAR = (L + 5000, L + 5100)  # a far out-of-range second range
 OVER = (L + 50, U + 200)  # a second, overlapping range
 V0, V1 = 7 * 10**9, 3 * 10**18  # raw in-amounts (token0 = USDC 6 dec, token1 = WETH 18 dec)
 POOLS = {"small": 3 * 10**15, "large": 10**22}
-OPS = ["none", "swap", "add_far", "add_same", "remove_part", "collect", "add_remove", "add_over", "transfer_out", "transfer_out_in"]
+OPS = ["none", "swap", "add_far", "add_same", "remove_part", "collect", "add_remove", "add_over", "transfer_out", "transfer_out_in", "add_same_then_rejected",
+       "rejected_then_add_same", "remove_part_then_rejected"]
 # a second grid centred on tick 0 (a stable / stable pool with equal decimals, fee 0.01 %, spacing 1): the previous close can be exactly 0
 ZL, ZU = -20, 20
 ZTICKS = [ZL - 2, ZL - 1, ZL, ZL + 1, 0, ZU - 1, ZU, ZU + 1, ZU + 30]
@@ -70,6 +71,22 @@ def do_op(name, grid="std"):
         elif name == "transfer_out_in":
             m.transfer_position_out(main)
             m.transfer_position_in(main)
+        elif name in ("add_same_then_rejected", "rejected_then_add_same", "remove_part_then_rejected"):
+            # a write the market refuses (more than the wallet holds; the strategy catches the error) next to an accepted write in the same bar
+            def refused():
+                try:
+                    m.add_liquidity_by_tick(L, U, Decimal(10**9), Decimal(10**12))
+                except Exception:  # noqa: BLE001
+                    return
+                raise RuntimeError("oversized deposit was accepted in the C08 harness")
+            if name == "rejected_then_add_same":
+                refused()
+            if name == "remove_part_then_rejected":
+                m.remove_liquidity(main, liquidity=m.positions[main].liquidity // 3, collect=False)
+            else:
+                m.add_liquidity_by_tick(L, U, Decimal("0.3"), Decimal(300))
+            if name != "rejected_then_add_same":
+                refused()
         elif name == "open":
             m.add_liquidity_by_tick(L, U, Decimal(1), Decimal(1500))
         elif name == "none":
@@ -94,14 +111,25 @@ def run_case(cfg):
         from demeter import TokenInfo
 
         pool = uni.pool_q0(0.01, TokenInfo("USDC", 6), TokenInfo("USDT", 6))
-    if cfg.get("vols", "std") == "std":
-        in0 = [V0 * (i + 1) for i in range(n)]
-        in1 = [V1 * (i + 2) for i in range(n)]
-    else:
-        in0 = [0] * n
-        in1 = [0] * n
+    vols = cfg.get("vols", "std")
+    in0 = [V0 * (i + 1) if vols in ("std", "only0") else 0 for i in range(n)]
+    in1 = [V1 * (i + 2) if vols in ("std", "only1") else 0 for i in range(n)]
     liq = POOLS[cfg["pool"]]
-    raw = uni.raw_frame(closes, in0, in1, liq, open_tick=closes[0], tick_dtype=cfg["dtype"])
+    k = cfg.get("minutes_per_bar", 1)
+    if k > 1:
+        # k one-minute rows per bar, resampled by the actuator (interval = k minutes): the bar's close is its LAST minute's close, its volume the SUM
+        # of the minutes' volumes (different every minute); the minutes inside a bar wander over the range
+        m_closes, m0, m1 = [], [], []
+        for i, c in enumerate(closes):
+            for j in range(k):
+                m_closes.append(c if j == k - 1 else TICKS[(3 * i + 5 * j) % len(TICKS)])
+                m0.append(in0[i] * (j + 1) // 7)
+                m1.append(in1[i] * (k - j) // 5)
+        in0 = [sum(m0[i * k:(i + 1) * k]) for i in range(n)]
+        in1 = [sum(m1[i * k:(i + 1) * k]) for i in range(n)]
+        raw = uni.raw_frame(m_closes, m0, m1, liq, open_tick=m_closes[0], tick_dtype=cfg["dtype"])
+    else:
+        raw = uni.raw_frame(closes, in0, in1, liq, open_tick=closes[0], tick_dtype=cfg["dtype"])
     market = uni.make_market(pool, uni.prepared(raw, pool))
     script = {("on_bar", cfg["open_bar"]): [do_op("open", grid)]}
     op, hook, ob = cfg["op"], cfg["hook"], cfg["op_bar"]
@@ -111,7 +139,7 @@ def run_case(cfg):
         elif hook == "trigger":
             def init(strategy, _):
                 f = do_op(op, grid)
-                strategy.triggers.append(AtTimeTrigger(raw.index[ob].to_pydatetime(), lambda snap: f(strategy, snap)))
+                strategy.triggers.append(AtTimeTrigger(raw.index[ob * k].to_pydatetime(), lambda snap: f(strategy, snap)))
             script[("initialize", -1)] = [init]
         else:
             script.setdefault((hook, ob), []).append(do_op(op, grid))
@@ -126,7 +154,8 @@ def run_case(cfg):
         obs.append((before, after))
 
     market.update = wrapped_update
-    act = make_actuator([market], [(pool.token0, 10**6), (pool.token1, 10**6 if grid == "zero" else 1000)], st, market.get_price_from_data())
+    act = make_actuator([market], [(pool.token0, 10**6), (pool.token1, 10**6 if grid == "zero" else 1000)], st, market.get_price_from_data(),
+                        interval=f"{k}min")
     err = None
     try:
         run_quiet(act)
@@ -224,6 +253,17 @@ def configs(thorough):
     for a, b in itertools.product(TICKS[::2], repeat=2):
         out.append({"closes": [TICKS[4], a, b], "pool": "small", "dtype": "float64", "open_bar": 0, "op": "none", "op_bar": 1,
                     "hook": "on_bar", "vols": "zero"})
+    # one-way flow: only one of the two tokens was paid in during the bars
+    for a, b in itertools.product(TICKS, repeat=2):
+        for v in ("only0", "only1"):
+            out.append({"closes": [TICKS[4], a, b], "pool": "small", "dtype": "float64", "open_bar": 0, "op": "none", "op_bar": 1, "hook": "on_bar", "vols": v})
+    # resampled bars (2 and 5 one-minute rows per bar)
+    for a, b in itertools.product(TICKS, repeat=2):
+        for k in ((2, 5) if thorough else (5,)):
+            out.append({"closes": [TICKS[4], a, b], "pool": "small", "dtype": "float64", "open_bar": 0, "op": "none", "op_bar": 1, "hook": "on_bar",
+                        "minutes_per_bar": k})
+    for a, b in itertools.product(TICKS[::2], repeat=2):
+        out.append({"closes": [TICKS[4], a, b], "pool": "small", "dtype": "float64", "open_bar": 0, "op": "add_same", "op_bar": 2, "hook": "on_bar", "minutes_per_bar": 2})
     # (3) the grid centred on tick 0: all 3-bar paths (previous close exactly 0 among them), and lending the position out
     for c in itertools.product(ZTICKS, repeat=3):
         out.append({"closes": list(c), "pool": "small", "dtype": "float64", "open_bar": 0, "op": "none", "op_bar": 1, "hook": "on_bar", "grid": "zero"})
@@ -278,7 +318,7 @@ def main(run: Run):
 def replay(run: Run, path):
     data = json.load(open(path))
     c = data["case"]
-    cfg = {k: c[k] for k in ("closes", "pool", "dtype", "open_bar", "op", "op_bar", "hook", "grid") if k in c}
+    cfg = {k: c[k] for k in ("closes", "pool", "dtype", "open_bar", "op", "op_bar", "hook", "grid", "minutes_per_bar") if k in c}
     if "vols" in c:
         cfg["vols"] = c["vols"]
     part = Part()
